@@ -177,11 +177,11 @@ def simple_qualifiers(draw, max_keys=3):
 
 @st.composite
 def transcript_spec(draw, max_exons=5, coding=None, max_len=10, zero_gap_cds=True, strand=None, start_min=0, start_max=8,
-                    frameshift_prob=8, with_ids=True, qualifiers=True, cds_gap_prob=0, adjacent_exons=False, cds_overlap_prob=0, unstranded_prob=0):
+                    frameshift_prob=8, with_ids=True, qualifiers=True, cds_gap_prob=0, adjacent_exons=False, cds_overlap_prob=0, unstranded_prob=0, min_exons=1):
     """exon layout + optional CDS chosen as a contiguous run [i,j) in transcript coordinates (boundary-biased)"""
     from harness import refmodel as rm
 
-    exons = draw(layout(max_k=max_exons, allow_empty=False, allow_adjacent=adjacent_exons, allow_overlap=False, max_len=max_len,
+    exons = draw(layout(max_k=max_exons, min_k=min_exons, allow_empty=False, allow_adjacent=adjacent_exons, allow_overlap=False, max_len=max_len,
                         max_gap=6, max_start=start_max))
     if start_min:
         exons = [[s + start_min, e + start_min] for s, e in exons]
